@@ -19,6 +19,7 @@ type pathEnd struct{ reason string }
 type goPanic struct {
 	val  Value
 	desc string
+	name string // assertion name under which an uncaught instance is reported (default: no-panic)
 }
 
 type deferred struct {
@@ -87,6 +88,7 @@ type Exec struct {
 	ghost     map[string]Value
 	ghostT    map[string]types.Type
 	concLimit int
+	emit      func(prefix []int)
 	opts      *RunOpts
 	curFrame  *Frame
 	callLog   []string
@@ -144,7 +146,7 @@ func (ex *Exec) resetPath(prefix []int) {
 	}
 	ex.concLimit = ex.opts.ConcLimit
 	if ex.concLimit == 0 {
-		ex.concLimit = 300
+		ex.concLimit = 80
 	}
 	ex.steps = 0
 	ex.mutexes = map[*Object]map[string]int{}
@@ -212,6 +214,10 @@ func (ex *Exec) where() string {
 // recordPanic: an uncaught Go panic on a feasible path is an implicit assertion failure.
 func (ex *Exec) recordPanic(p *goPanic) {
 	rec := AssertRec{Name: "no-panic", Status: "violated", Detail: p.desc + ex.where()}
+	if p.name != "" {
+		rec.Name = p.name
+	}
+	rec.Prefix = append([]int{}, ex.decisions[:ex.decIdx]...)
 	cr := ex.sess.Check(nil, true)
 	if cr.Res == "sat" {
 		rec.Model = cr.Model
@@ -355,7 +361,7 @@ func (ex *Exec) choose(conds []*Term) int {
 			continue
 		}
 		np := append(append([]int{}, ex.decisions[:ex.decIdx]...), i)
-		ex.res.NewPref = append(ex.res.NewPref, np)
+		ex.publish(np)
 	}
 	if first < 0 {
 		panic(pathEnd{"infeasible"})
@@ -380,6 +386,16 @@ func (ex *Exec) branch(c *Term) bool {
 		return false
 	}
 	return ex.choose([]*Term{c, ex.tb.Not(c)}) == 0
+}
+
+// publish hands a new decision prefix to the driver at once, so that other workers can take
+// it while this path is still running.
+func (ex *Exec) publish(np []int) {
+	if ex.emit != nil {
+		ex.emit(np)
+		return
+	}
+	ex.res.NewPref = append(ex.res.NewPref, np)
 }
 
 func (ex *Exec) pcDirtyFlush() { ex.settle() }
@@ -418,7 +434,7 @@ func (ex *Exec) concInt(t *Term, what string) int {
 	sort.Ints(vals)
 	for _, v := range vals[1:] {
 		np := append(append([]int{}, ex.decisions[:ex.decIdx]...), v)
-		ex.res.NewPref = append(ex.res.NewPref, np)
+		ex.publish(np)
 	}
 	ex.decisions = append(append([]int{}, ex.decisions[:ex.decIdx]...), vals[0])
 	ex.decIdx++
@@ -742,6 +758,18 @@ func (ex *Exec) evalValue(fr *Frame, ins ssa.Value) Value {
 		ex.check(ex.tb.Cmp(OpSle, ex.i64(0), lt64), "makeslice: len out of range")
 		ex.check(ex.tb.Cmp(OpSle, lt64, ct64), "makeslice: cap out of range")
 		ex.noteAlloc(ct64)
+		if lim, ok := ex.ghost["allocLimit"].(*Term); ok {
+			within := ex.tb.Cmp(OpSle, ct64, lim)
+			if !within.IsTrue() && !ex.branch(within) {
+				// prefer a counterexample with a large allocation (robust native replay)
+				big := ex.tb.Cmp(OpSle, ex.i64(1<<24), ct64)
+				if ex.feasible(big) {
+					ex.addPC(big)
+				}
+				panic(&goPanic{val: &IfaceV{Typ: types.Typ[types.String], Val: ex.constStr("alloc")}, name: "alloc-bound",
+					desc: "allocation sized by a decoded length exceeds the harness's bound (make)"})
+			}
+		}
 		n := ex.concInt(ct64, "makeslice cap")
 		et := ins.Type().Underlying().(*types.Slice).Elem()
 		arr := make(ArrayV, n)
@@ -817,6 +845,9 @@ func (ex *Exec) load(p *Pointer) Value {
 	cur, symEl, parent := ex.navigate(p)
 	if symEl != nil {
 		arr := parent.(ArrayV)
+		if len(p.Path) == 1 && p.Obj.UF != "" {
+			return ex.tb.App(p.Obj.UF, 8, symEl.Sym)
+		}
 		return ex.muxRead(arr, symEl.Sym, 0, len(arr))
 	}
 	ex.onAccess(p, false)
@@ -828,6 +859,7 @@ func (ex *Exec) store(p *Pointer, v Value) {
 	if p.Obj.Frozen {
 		ex.noteFrozenWrite(p)
 	}
+	p.Obj.UF = ""
 	if symEl != nil {
 		arr := parent.(ArrayV)
 		nv := v.(*Term)
@@ -842,6 +874,18 @@ func (ex *Exec) store(p *Pointer, v Value) {
 	}
 	ex.onAccess(p, true)
 	*cur = copyValue(v)
+}
+
+// readAt returns obj[pos] for a scalar array and a possibly symbolic position.
+func (ex *Exec) readAt(obj *Object, pos *Term) *Term {
+	arr := obj.Val.(ArrayV)
+	if pos.IsConst() {
+		return arr[int(pos.SInt())].(*Term)
+	}
+	if obj.UF != "" {
+		return ex.tb.App(obj.UF, 8, pos)
+	}
+	return ex.muxRead(arr, pos, 0, len(arr)).(*Term)
 }
 
 // muxRead selects arr[idx] for a symbolic idx known to be within [lo,hi).
@@ -987,6 +1031,14 @@ func (ex *Exec) indexAddr(fr *Frame, ins *ssa.IndexAddr) Value {
 	case *SliceV:
 		ex.check(ex.tb.And(ex.tb.Cmp(OpSle, ex.i64(0), idx), ex.tb.Cmp(OpSlt, idx, x.Len)), "index out of range (slice)")
 		pos := ex.tb.Add(x.Off, idx)
+		if !pos.IsConst() {
+			// arrays of non-scalars (pointers, structs, ...) cannot be muxed: case-split the index
+			if arr := x.Arr.Val.(ArrayV); len(arr) > 0 {
+				if _, scalar := arr[0].(*Term); !scalar {
+					pos = ex.i64(int64(ex.concInt(pos, "index into non-scalar slice")))
+				}
+			}
+		}
 		if pos.IsConst() {
 			return &Pointer{Obj: x.Arr, Path: []PathEl{{Idx: int(pos.SInt())}}}
 		}
@@ -1019,11 +1071,7 @@ func (ex *Exec) indexOp(fr *Frame, ins *ssa.Index) Value {
 // strByteAtTerm returns s[i] for a (possibly symbolic) in-range index.
 func (ex *Exec) strByteAtTerm(s *StringV, i *Term) *Term {
 	pos := ex.tb.Add(s.Off, i)
-	arr := s.Arr.Val.(ArrayV)
-	if pos.IsConst() {
-		return arr[int(pos.SInt())].(*Term)
-	}
-	return ex.muxRead(arr, pos, 0, len(arr)).(*Term)
+	return ex.readAt(s.Arr, pos)
 }
 
 // ---------- conversions ----------
@@ -1129,6 +1177,7 @@ func (ex *Exec) copyBytes(arr *Object, off, ln *Term, elem types.Type) Value {
 	dst := make(ArrayV, len(src))
 	copy(dst, src)
 	obj := ex.newObject(nil, dst, "bytes")
+	obj.UF = arr.UF
 	return &SliceV{Arr: obj, Off: off, Len: ln, Cap: ln, Elem: elem}
 }
 
@@ -1319,7 +1368,7 @@ func (ex *Exec) strByteAtSafe(s *StringV, i *Term) *Term {
 	if len(arr) == 0 {
 		return ex.tb.BV(8, 0)
 	}
-	return ex.muxRead(arr, pos, 0, len(arr)).(*Term)
+	return ex.readAt(s.Arr, pos)
 }
 
 func (ex *Exec) valEq(x, y Value) *Term {
@@ -1821,6 +1870,7 @@ func (ex *Exec) appendOp(s *SliceV, more Value) Value {
 		if s.Arr.Frozen {
 			ex.noteFrozenWrite(&Pointer{Obj: s.Arr})
 		}
+		s.Arr.UF = ""
 		for i, v := range add {
 			arr[off+ln+i] = copyValue(v)
 		}
@@ -1874,6 +1924,7 @@ func (ex *Exec) copyOp(dst *SliceV, src Value) Value {
 		if dst.Arr.Frozen {
 			ex.noteFrozenWrite(&Pointer{Obj: dst.Arr})
 		}
+		dst.Arr.UF = ""
 		tmp := make([]Value, n)
 		for i := 0; i < n; i++ {
 			tmp[i] = copyValue(sv[i])
